@@ -866,6 +866,20 @@ const TROUBLE: &[&str] = &[
     "Brazil/West",
     "Australia/West",
     "US/Pacific",
+    // every shape of name the text readers have to scan: '-' inside a city, '_', digits, three segments;
+    // zones more than 12 h east of Greenwich
+    "America/Port-au-Prince",
+    "America/Blanc-Sablon",
+    "Africa/Porto-Novo",
+    "Asia/Ust-Nera",
+    "America/North_Dakota/New_Salem",
+    "America/Argentina/ComodRivadavia",
+    "Etc/GMT+1",
+    "Etc/GMT-10",
+    "Pacific/Apia",
+    "Pacific/Tongatapu",
+    "Pacific/Auckland",
+    "Pacific/Fakaofo",
 ];
 
 /// zones whose offset had seconds at some time (local mean time), for the cases around their transitions
